@@ -6,7 +6,9 @@ import (
 	"net/netip"
 	"time"
 
+	"github.com/jech/storrent/hash"
 	"github.com/jech/storrent/peer"
+	"github.com/jech/storrent/verifhook"
 	"verifharness/fixture"
 	"verifharness/refwire"
 )
@@ -76,6 +78,12 @@ func (r *Remote) Answer(k BlockKey, kind string, salt uint64) {
 		d := g.Truth(off, n)
 		if len(d) > 0 {
 			d[int(salt%uint64(len(d)))] ^= 0x10
+		}
+		r.Send(refwire.Msg{Kind: refwire.KPiece, Index: k.Index, Begin: k.Begin, Data: d})
+	case "corrupt-whole":
+		d := g.Truth(off, n)
+		for i := range d {
+			d[i] ^= 0x10
 		}
 		r.Send(refwire.Msg{Kind: refwire.KPiece, Index: k.Index, Begin: k.Begin, Data: d})
 	case "short":
@@ -766,6 +774,59 @@ func RunUpload(sw *Swarm, rng *rand.Rand) (tr *Tor, stats map[string]int) {
 				}
 				sw.Act("refill %v", miss)
 			}
+		case x < 87:
+			// a missing piece arrives, corrupted, and is still being verified (hashing takes virtual time
+			// here, as it does for a multi-megabyte piece) when the leeches ask for it
+			bm := tr.T.Pieces.Bitmap()
+			var cand []int
+			for p := 0; p < np; p++ {
+				if !bm.Get(p) && tr.T.Pieces.PieceEmpty(uint32(p)) {
+					cand = append(cand, p)
+				}
+			}
+			if len(cand) == 0 {
+				break
+			}
+			p := cand[rng.IntN(len(cand))]
+			off := int64(p) * int64(g.PieceLen)
+			for b := 0; b < g.BlocksIn(p); b++ {
+				d := g.Truth(off+int64(b*fixture.Block), g.BlockLen(p, b))
+				for i := range d {
+					d[i] ^= 0x20
+				}
+				tr.T.Pieces.AddData(uint32(p), uint32(b*fixture.Block), d, 0)
+			}
+			quit := make(chan struct{})
+			verifhook.SetPoint(func(name string) {
+				if name == "piece.finalise.hash.begin" {
+					select {
+					case <-time.After(3 * time.Second):
+					case <-quit:
+					}
+				}
+			})
+			finDone := make(chan struct{})
+			go func() {
+				defer close(finDone)
+				tr.T.Pieces.Finalise(uint32(p), hash.Hash(g.PieceHash(p)))
+			}()
+			sw.Cut()
+			sw.Act("piece %d has all its data (corrupt) and is being verified", p)
+			for _, r := range live() {
+				for b := 0; b < g.BlocksIn(p) && b < 3; b++ {
+					m := refwire.Msg{Kind: refwire.KRequest, Index: uint32(p), Begin: uint32(b * fixture.Block), Length: uint32(g.BlockLen(p, b))}
+					r.Send(m)
+					sentReqs = append(sentReqs, m)
+					stats["requests_for_piece_being_verified"]++
+				}
+			}
+			sw.Cut()
+			time.Sleep(time.Second)
+			sw.Cut()
+			close(quit)
+			<-finDone
+			verifhook.SetPoint(nil)
+			stats["pieces_verified_slowly"]++
 		default:
 			d := []time.Duration{300 * time.Millisecond, 2 * time.Second, 2 * time.Second, 25 * time.Second, 65 * time.Second}[rng.IntN(5)]
 			sw.Act("sleep %v", d)
